@@ -210,6 +210,13 @@ func (g *progGen) expr(t *gty, depth int) string {
 				return g.call(f, depth-1)
 			}
 			return numLits[g.pick(len(numLits))]
+		case 12:
+			// pure math / string built-ins with a num result (modelled through coq/Builtins.v)
+			if g.pick(3) == 0 {
+				return "(index " + paren(g.expr(tStr, depth-1)) + " " + paren(g.expr(tStr, depth-1)) + ")"
+			}
+			fn := []string{"floor", "ceil", "round"}[g.pick(3)]
+			return "(" + fn + " " + paren(g.expr(tNum, depth-1)) + ")"
 		default:
 			return "(" + g.expr(tNum, depth-1) + ")"
 		}
@@ -217,7 +224,36 @@ func (g *progGen) expr(t *gty, depth int) string {
 		if leaf {
 			return strLits[g.pick(len(strLits))]
 		}
-		switch g.pick(10) {
+		switch g.pick(12) {
+		case 10:
+			// pure string built-ins (modelled through coq/Builtins.v; non-ASCII case mapping is an oracle)
+			switch g.pick(3) {
+			case 0:
+				fn := []string{"upper", "lower"}[g.pick(2)]
+				return "(" + fn + " " + paren(g.expr(tStr, depth-1)) + ")"
+			case 1:
+				return "(trim " + paren(g.expr(tStr, depth-1)) + " " + paren(g.expr(tStr, depth-1)) + ")"
+			default:
+				return "(replace " + paren(g.expr(tStr, depth-1)) + " " + paren(g.expr(tStr, depth-1)) + " " + paren(g.expr(tStr, depth-1)) + ")"
+			}
+		case 11:
+			if g.pick(2) == 0 {
+				// sprintf on string / bool operands (number formatting is an oracle of the model)
+				f := []struct {
+					format string
+					kinds  string
+				}{{`"%s-%v"`, "ss"}, {`"[%5s|%-4s]"`, "ss"}, {`"%q %t"`, "sb"}, {`"%v %d"`, "bs"}, {`"%s"`, "ss"}, {`"%s %s"`, "s"}}[g.pick(6)]
+				out := "(sprintf " + f.format
+				for _, k := range f.kinds {
+					if k == 's' {
+						out += " " + paren(g.expr(tStr, depth-1))
+					} else {
+						out += " " + paren(g.expr(tBool, depth-1))
+					}
+				}
+				return out + ")"
+			}
+			return "(join (split " + paren(g.expr(tStr, depth-1)) + " " + paren(g.expr(tStr, depth-1)) + ") " + paren(g.expr(tStr, depth-1)) + ")"
 		case 0, 1:
 			return g.expr(tStr, depth-1) + " + " + g.expr(tStr, depth-1)
 		case 2:
@@ -316,6 +352,9 @@ func (g *progGen) expr(t *gty, depth int) string {
 				return "[]"
 			}
 			return "[" + strings.Join(els, " ") + "]"
+		}
+		if t.sub.k == "string" && g.pick(5) == 0 {
+			return "(split " + paren(g.expr(tStr, depth-1)) + " " + paren(g.expr(tStr, depth-1)) + ")"
 		}
 		switch g.pick(6) {
 		case 0, 1:
